@@ -37,25 +37,30 @@ func sweep(seed []byte, maxOff int, run func([]byte)) {
 
 func TestSweep(t *testing.T) {
 	const per = 3 // valid seeds per target
-	t.Run("socks5-server", func(t *testing.T) {
+	run := func(name string, f func(t *testing.T)) {
+		if !t.Failed() {
+			t.Run(name, f)
+		}
+	}
+	run("socks5-server", func(t *testing.T) {
 		sels, seeds := socks5ServerSeeds()
 		for _, i := range []int{0, 2, 9, 18, 33} {
 			sweep(seeds[i], 140, func(m []byte) { oracleSocks5Server(t, sels[i], 0, m) })
 		}
 	})
-	t.Run("socks5-client", func(t *testing.T) {
+	run("socks5-client", func(t *testing.T) {
 		sels, seeds := socks5ClientSeeds()
 		for i := 0; i < 4; i++ {
 			sweep(seeds[i], 64, func(m []byte) { oracleSocks5Client(t, sels[i], 0, m) })
 		}
 	})
-	t.Run("ssnone-server", func(t *testing.T) {
+	run("ssnone-server", func(t *testing.T) {
 		seeds := ssnoneSeeds()
 		for i := 0; i < per; i++ {
 			sweep(seeds[i], 64, func(m []byte) { oracleSSNone(t, 0, m) })
 		}
 	})
-	t.Run("http", func(t *testing.T) {
+	run("http", func(t *testing.T) {
 		sels, clients, origins := httpServerSeeds()
 		for _, i := range []int{0, 1} {
 			sweep(clients[i], 80, func(m []byte) { oracleHTTPServer(t, sels[i], 0, m, origins[i]) })
@@ -65,7 +70,7 @@ func TestSweep(t *testing.T) {
 			sweep(cseeds[i], 60, func(m []byte) { oracleHTTPClient(t, csels[i], 0, m) })
 		}
 	})
-	t.Run("ss2022-server", func(t *testing.T) {
+	run("ss2022-server", func(t *testing.T) {
 		sels, seeds := ssServerSeeds()
 		n := 0
 		for i := range seeds {
@@ -78,14 +83,14 @@ func TestSweep(t *testing.T) {
 			sweep(seeds[i], 60, func(m []byte) { oracleSS2022Server(t, sels[i], uint8(i), 0, m) })
 		}
 	})
-	t.Run("ss2022-client", func(t *testing.T) {
+	run("ss2022-client", func(t *testing.T) {
 		sels, seeds := ssClientSeeds()
 		for _, i := range []int{0, 12} {
 			sweep(seeds[i], 80, func(m []byte) { oracleSS2022Client(t, sels[i]&^ssFixLen|ssFixSalt, uint8(i), 0, m) })
 			sweep(seeds[i], 80, func(m []byte) { oracleSS2022Client(t, sels[i], uint8(i)+1, 0, m) })
 		}
 	})
-	t.Run("ss2022-udp", func(t *testing.T) {
+	run("ss2022-udp", func(t *testing.T) {
 		sels, seeds := ssUDPServerSeeds()
 		n := 0
 		for i := range seeds {
@@ -100,13 +105,13 @@ func TestSweep(t *testing.T) {
 			sweep(cseeds[i], 120, func(m []byte) { oracleSS2022UDPClient(t, csels[i], m) })
 		}
 	})
-	t.Run("packets", func(t *testing.T) {
+	run("packets", func(t *testing.T) {
 		sels, seeds := packetSeeds()
 		for i := 0; i < 8 && i < len(seeds); i++ {
 			sweep(seeds[i], 40, func(m []byte) { oraclePacket(t, sels[i], m) })
 		}
 	})
-	t.Run("dns", func(t *testing.T) {
+	run("dns", func(t *testing.T) {
 		sels, names, firsts, seconds := dnsSeeds()
 		for _, i := range []int{0, 2, 4} {
 			sweep(firsts[i], 120, func(m []byte) { oracleDNS(t, sels[i], 0, names[i], m, seconds[i]) })
